@@ -89,6 +89,11 @@ def gen_bins(rng):
     if rng.random() < 0.4:                         # pairs that exactly fill a bin
         a = rng.randint(1, cap - 1)
         sizes[: 2] = [a, cap - a][: len(sizes[: 2])] if n >= 2 else sizes
+    if rng.random() < 0.08:
+        # the whole instance at a tiny scale (units of 10^-9): an absolute fit tolerance would overfill the bins
+        n = rng.randint(2, 6)
+        cap = rng.randint(1, 6)
+        return {"sizes": [rng.randint(1, cap) for _ in range(n)], "capacity": cap, "scale": 10 ** 9}
     if rng.random() < 0.25 and n >= 3:              # several items of exactly half the capacity among smaller ones, shuffled
         k = rng.randint(2, min(4, n))
         sizes = [cap // 2] * k + [rng.randint(1, max(1, cap // 2)) for _ in range(n - k)]
